@@ -102,3 +102,19 @@ Lemma l_set_add_present k d : existsb (key_eqb k) d = true -> set_add k d = d.
 Proof.
   induction d as [|k1 d IH]; simpl; [discriminate|]. destruct (key_eqb k k1) eqn:E; simpl; auto. intros H. rewrite IH; auto.
 Qed.
+
+(* ---------- C01: the safe constructor model rejects every node whose tag is not one of its 12 core tags ---------- *)
+Definition model_core : list str := [t_null; t_bool; t_int; t_float; t_binary; t_timestamp; t_str; t_seq; t_map; t_set; t_omap; t_pairs].
+Definition is_core (t : str) : bool := existsb (str_eqb t) model_core.
+Lemma l_unknown_tag_rejected f id s n :
+  assoc_id id (cache s) = None -> existsb (Nat.eqb id) (recursive s) = false ->
+  nth_error (nodes s) id = Some n -> is_core (n_tag n) = false ->
+  construct_object (S f) false id s = LConstructor 8.
+Proof.
+  intros H1 H2 H3 H4. cbn [construct_object]. unfold kbind at 1, kget. rewrite H1, H2.
+  unfold kbind at 1, mark_rec. unfold kbind at 1, get_node. cbn [nodes]. rewrite H3.
+  unfold is_core, model_core in H4. cbn [existsb] in H4. repeat (apply orb_false_elim in H4 as [? H4]).
+  unfold kbind at 1.
+  repeat match goal with H : str_eqb (n_tag n) ?t = false |- _ => rewrite H; clear H end.
+  reflexivity.
+Qed.
